@@ -253,7 +253,7 @@ func rulesC19(c *Ctx) {
 				case "literal":
 					c.OK("C19.nonempty", key, r.Pos(), "local list starts as a non-empty literal")
 				case "sources":
-					if tn == "SelectStatement" {
+					if tn == "SelectStatement" || p.sourcesOfSelectOnly(fd.Body) {
 						c.OK("C19.nonempty", key, r.Pos(), "list starts from the sources; FROM is mandatory for SELECT (parseSelectStatement stores parseSources unconditionally, checked by C19.recursion)")
 					} else {
 						c.Bad("C19.nonempty", key, r.Pos(), "list starts from the (optional) sources and may be empty")
@@ -823,4 +823,34 @@ func freshListC19(c *Ctx) {
 		}
 	}
 	c.Floor("C19.allsources", m, 1)
+}
+
+// sourcesOfSelectOnly: every Sources value whose privileges the body asks for
+// is the Sources field of a *SelectStatement.
+func (p *Program) sourcesOfSelectOnly(body *ast.BlockStmt) bool {
+	n, all := 0, true
+	ast.Inspect(body, func(nd ast.Node) bool {
+		call, ok := nd.(*ast.CallExpr)
+		if !ok {
+			return true
+		}
+		sel, ok := call.Fun.(*ast.SelectorExpr)
+		if !ok || sel.Sel.Name != "RequiredPrivileges" {
+			return true
+		}
+		if t := p.Info.TypeOf(sel.X); t == nil || p.TypeStr(t) != "Sources" {
+			return true
+		}
+		n++
+		src, ok := ast.Unparen(sel.X).(*ast.SelectorExpr)
+		if !ok || src.Sel.Name != "Sources" {
+			all = false
+			return true
+		}
+		if t := p.Info.TypeOf(src.X); t == nil || p.TypeStr(t) != "*SelectStatement" {
+			all = false
+		}
+		return true
+	})
+	return n > 0 && all
 }
